@@ -75,7 +75,34 @@ func loadProgram(dir string) (*Verifier, error) {
 	if err := v.cs.CheckDuplicates(); err != nil {
 		return nil, err
 	}
+	for _, e := range v.cs.Embedded {
+		// pkgpath.Type.field
+		k2 := strings.LastIndex(e, ".")
+		k1 := strings.LastIndex(e[:k2], ".")
+		pkgPath, tn, fn := e[:k1], e[k1+1:k2], e[k2+1:]
+		sp := v.pkgs[pkgPath]
+		var fld *types.Var
+		if sp != nil {
+			if obj := sp.Pkg.Scope().Lookup(tn); obj != nil {
+				if st, ok := obj.Type().Underlying().(*types.Struct); ok {
+					for i := 0; i < st.NumFields(); i++ {
+						if st.Field(i).Name() == fn {
+							fld = st.Field(i)
+						}
+					}
+				}
+			}
+		}
+		if fld == nil {
+			return nil, fmt.Errorf("embedded %s: no such struct field", e)
+		}
+		if _, ok := fld.Type().Underlying().(*types.Struct); !ok {
+			return nil, fmt.Errorf("embedded %s: field is not of struct type", e)
+		}
+		embeddedFields[fld] = true
+	}
 	v.tableRaw = map[string]json.RawMessage{}
+	v.strConsts = map[string]int{}
 	if err := v.extractTables(dir); err != nil {
 		return nil, err
 	}
